@@ -59,6 +59,9 @@ def diagnose_global(adm, consts, trace, res, name, t, sh):
     tree = pyast.parse(trace["src"])
     ex = set(trace.get("executed_lines") or ())
     path, ft, fs, parent = admit.find_failure(adm, t, sh)
+    cl = c01_diag.closure_signature(tree, c01_diag.called_functions(tree, name))
+    if cl:
+      out["closure"] = cl
     ba = c01_diag.branch_attr_signature(tree, ex)
     if ba:
       out["branch_attr"] = ba
@@ -105,6 +108,8 @@ def mechanism(v, dg):
       return c01_diag.K_INPLACE
     if dg.get("branch_attr") and vw.get("found") is False:
       return c01_diag.K_BRANCH_ATTR
+    if dg.get("closure") and vw.get("found") is False:
+      return c01_diag.K_CLOSURE
     if vw.get("cond"):
       return c01_diag.K_COND
     if vw.get("rebound"):
@@ -172,6 +177,11 @@ def judge(src, trace, res, diag=None):
         from vf.oracle import c01_diag
         dg = {}
         try:
+          from vf.oracle import admit as _admit
+          path, ft, fs, parent = _admit.find_failure(adm, t, sh)
+          al = c01_diag.alias_signature(trace, adm, consts, parent or sh, fs, min_paths=1)
+          if al:
+            dg["alias"] = al
           defs = c01_diag.CAPTURE.get("defs")
           if res.ctx is not None and defs is not None:
             st = c01_diag.site_signature(res.ctx, defs, trace, gname)
